@@ -387,7 +387,7 @@ impl Property for C04 {
         "C04"
     }
     fn rule(&self) -> String {
-        "case = text of 0-40 codepoints over 1-4 byte characters + a chain of 1-4 links; link 1 is a TextSelector offset on the resource, every next link an AnnotationSelector offset relative to the last accepted annotation. Each cursor is begin- or end-aligned and placed at a position drawn from [-3, len+3] of its parent text (out-of-range ~14% per cursor, unsorted pairs 10%, zero-width 12%, positions 0 and len boosted). Oracle: 0<=b<=e<=len decides accept/reject for annotate, FindText::textselection, Text::text_by_offset and the low-level textselection_by_offset routines; accepted annotations must have exactly the addressed characters; every reported offset (Selector::offset, offset_with_mode x4, TextSelection::relative_offset x4, JSON, CSV) must be well-formed and denote the same absolute range. Non-trivial = non-ASCII text and (an end-aligned cursor or an accepted link at depth >= 2 or a rejected offset); distinct = distinct case JSON.".into()
+        "case = text of 0-40 codepoints over 1-4 byte characters + a chain of 1-4 links; link 1 is a TextSelector offset on the resource, every next link an AnnotationSelector offset relative to the last accepted annotation. Each cursor is begin- or end-aligned and placed at a position drawn from [-3, len+3] of its parent text (out-of-range ~14% per cursor, unsorted pairs 10%, zero-width 12%, positions 0 and len boosted). Oracle: 0<=b<=e<=len decides accept/reject for annotate, FindText::textselection, Text::text_by_offset and the low-level textselection_by_offset routines; accepted annotations must have exactly the addressed characters; every reported offset (Selector::offset, offset_with_mode x4, TextSelection::relative_offset x4, JSON, CSV) must be well-formed, denote the same absolute range and read back from its printed form (Cursor::try_from(cursor.to_string())) as the same cursor; at every link after the first the same cursor pair is also resolved against the resource itself (text_by_offset, textselection), whose position index is populated by then. Non-trivial = non-ASCII text and (an end-aligned cursor or an accepted link at depth >= 2 or a rejected offset); distinct = distinct case JSON.".into()
     }
     fn assumptions(&self) -> Vec<String> {
         vec![
